@@ -50,6 +50,9 @@ typedef struct
 
 } MantisCTRVec128Ctx_t;
 
+static int mantis_ctr_vec128_set_counter
+    (MantisCTR_t *ctr, const void *counter, unsigned size);
+
 static int mantis_ctr_vec128_init(MantisCTR_t *ctr)
 {
     MantisCTRVec128Ctx_t *ctx;
@@ -59,6 +62,10 @@ static int mantis_ctr_vec128_init(MantisCTR_t *ctr)
     ctx->base_ptr = base_ptr;
     ctx->offset = MANTIS_CTR_BLOCK_SIZE;
     ctr->ctx = ctx;
+
+    /* The counter block starts out as all-zeroes: load it into the lanes
+       so that they hold 0, 1, 2, ... just as after an explicit counter set */
+    mantis_ctr_vec128_set_counter(ctr, 0, 0);
     return 1;
 }
 
